@@ -6,7 +6,7 @@ from reactivex.disposable import (
     SerialDisposable,
     SingleAssignmentDisposable,
 )
-from reactivex.internal import curry_flip, is_future
+from reactivex.internal import curry_flip, is_future, synchronized
 from reactivex.typing import AnyFuture
 
 _T = TypeVar("_T")
@@ -49,8 +49,8 @@ def switch_latest_(
             with source.lock:
                 latest[0] += 1
                 _id = latest[0]
-            has_latest[0] = True
-            inner_subscription.disposable = d
+                has_latest[0] = True
+                inner_subscription.disposable = d
 
             # Check if Future or Observable
             if is_future(inner_source):
@@ -58,14 +58,20 @@ def switch_latest_(
             else:
                 obs = inner_source
 
+            # The outer sequence and the inner ones may run on different
+            # threads: every test of "still the latest" and the act it guards
+            # happen under the same lock
+            @synchronized(source.lock)
             def on_next(x: Any) -> None:
                 if latest[0] == _id:
                     observer.on_next(x)
 
+            @synchronized(source.lock)
             def on_error(e: Exception) -> None:
                 if latest[0] == _id:
                     observer.on_error(e)
 
+            @synchronized(source.lock)
             def on_completed() -> None:
                 if latest[0] == _id:
                     has_latest[0] = False
@@ -76,13 +82,17 @@ def switch_latest_(
                 on_next, on_error, on_completed, scheduler=scheduler
             )
 
+        @synchronized(source.lock)
         def on_completed() -> None:
             is_stopped[0] = True
             if not has_latest[0]:
                 observer.on_completed()
 
         subscription = source.subscribe(
-            on_next, observer.on_error, on_completed, scheduler=scheduler
+            on_next,
+            synchronized(source.lock)(observer.on_error),
+            on_completed,
+            scheduler=scheduler,
         )
         return CompositeDisposable(subscription, inner_subscription)
 
